@@ -1,23 +1,75 @@
-(* C10 -- binary pack format.  Statements only; proofs in Proofs.PackProofs (and PackRoundtrip*, F16Proofs). *)
+(* C10 -- binary pack format.  Statements only; the model is Model.Pack (codecs) + Model.PackSpec (format limits
+   pack_ok, expected result of unpack), the proofs are in Proofs.PackBits / PackRoundtrip / PackRoundtripGraph /
+   PackRoundtripMol / PackProofs. *)
 From Coq Require Import ZArith List Bool.
-From Model Require Import PyBase Pack.
-From Proofs Require Import PackProofs.
+From Model Require Import PyBase Pack PackSpec.
+From Proofs Require Import PackBits PackRoundtrip PackRoundtripGraph PackRoundtripMol PackProofs.
 Import ListNotations.
 Open Scope Z_scope.
 
-(* reactions: the (repaired) role split restores reactants / reagents / products for ALL role sizes incl. empty sides *)
-Theorem C10_rxn_split_fixed_correct : forall (A : Type) (rs ags ps : list A),
-  rxn_split true (rs ++ ags ++ ps) (Z.of_nat (length rs)) (Z.of_nat (length ags)) (Z.of_nat (length ps)) = (rs, ags, ps).
-Proof. exact @rxn_split_fixed_correct. Qed.
-Print Assumptions C10_rxn_split_fixed_correct.
+(* ROUND TRIP, molecule level.  For EVERY molecule within the format limits (pack_ok: atom numbers 1..4095 without
+   repetition, <= 15 neighbours, isotope offset 1..31, charge -4..4, hydrogens 0..6 or None, bond orders 1,2,3,4,8, symmetric
+   neighbour tables without loops, terminals known for labelled bonds, < 4096 cis/trans labels) pack succeeds, and unpack
+   of the produced bytes -- followed by ANY other bytes, as inside a reaction pack -- returns: the atoms in the same
+   order with number, neighbour count, element, isotope, atom stereo label, hydrogens (incl. None), charge, radical flag
+   and the four coordinate bytes; every atom's neighbours in the same order with the bond orders; the cis/trans records
+   (terminal pair, sign) of the labelled bonds in first-encounter order; and as consumed length the number of bytes
+   written. *)
+Theorem C10_unpack_pack : forall (m : pmol) (suf : list Z), pack_ok m = true ->
+  exists bytes, pack m = Ok bytes /\
+    unpack (bytes ++ suf) =
+    Ok (mkUnpacked (map uatom_of (pm_atoms m)) (map adj_entry (pm_atoms m))
+                   (fwd_ct (pm_terminals m) (mol_fwd [] (pm_atoms m))) (Z.of_nat (length bytes))).
+Proof. exact unpack_pack. Qed.
+Print Assumptions C10_unpack_pack.
 
-(* the split as originally written fails exactly for an empty product side (fixed in /repo by a fix: commit) *)
-Theorem C10_rxn_split_orig_refuted :
-  rxn_split false [10; 20] 1 1 0 = ([10], [], [10; 20]) /\ rxn_split true [10; 20] 1 1 0 = ([10], [20], []).
-Proof. exact rxn_split_orig_refuted. Qed.
-Print Assumptions C10_rxn_split_orig_refuted.
+(* non-vacuity: a molecule at the limits (atom number 4095 with 15 neighbours, isotope, charge -4, unknown hydrogens,
+   atom stereo, one labelled bond, orders 1,2,3,4,8) satisfies the hypothesis *)
+Theorem C10_unpack_pack_nonvacuous :
+  pack_ok pack_example = true /\
+  (exists a, In a (pm_atoms pack_example) /\ pa_n a = 4095 /\ length (pa_nbrs a) = 15%nat /\ pa_stereo a = Some true /\
+             pa_iso a = Some 238 /\ pa_chg a = -4 /\ pa_h a = None) /\
+  length (pm_atoms pack_example) = 16%nat /\ length (mol_fwd [] (pm_atoms pack_example)) = 19%nat /\
+  fwd_ct (pm_terminals pack_example) (mol_fwd [] (pm_atoms pack_example)) = [(3, 4, true)].
+Proof. exact pack_example_ok. Qed.
+Print Assumptions C10_unpack_pack_nonvacuous.
 
-Theorem C10_rxn_split_orig_partial : forall (A : Type) (rs ags ps : list A), ps <> [] ->
-  rxn_split false (rs ++ ags ++ ps) (Z.of_nat (length rs)) (Z.of_nat (length ags)) (Z.of_nat (length ps)) = (rs, ags, ps).
-Proof. exact @rxn_split_orig_partial. Qed.
-Print Assumptions C10_rxn_split_orig_partial.
+(* LAYOUT, block level: pack m is header ++ 9-byte atom records ++ connection table ++ order block ++ cis/trans block *)
+Theorem C10_pack_blocks : forall m, pack_ok m = true ->
+  pack m = Ok (header_bytes (Z.of_nat (length (pm_atoms m))) (pm_ct_count m) ++ atoms_block (pm_atoms m) ++
+               conn_bytes (mol_conns (pm_atoms m)) ++ order_bytes (fwd_orders (mol_fwd [] (pm_atoms m))) ++
+               flat_map ct_record (fwd_ct (pm_terminals m) (mol_fwd [] (pm_atoms m)))).
+Proof. exact pack_blocks. Qed.
+Print Assumptions C10_pack_blocks.
+
+(* LAYOUT of the bond order block: the 8-state writer produces exactly the 3-bit fields, most significant bit first,
+   zero padded to a whole byte -- for ALL lists of order codes 0..7 *)
+Theorem C10_order_block_layout : forall os, Forall (fun o => 0 <= o < 8) os ->
+  order_bytes os = bytes_of_bits (flat_map bits3 os).
+Proof. exact order_bytes_layout. Qed.
+Print Assumptions C10_order_block_layout.
+
+(* LAYOUT of the connection table: two 12-bit numbers per 3 bytes *)
+Theorem C10_conn_table_layout : forall ms, Forall (fun m => 0 <= m < 4096) ms -> Nat.Even (length ms) ->
+  conn_bytes ms = pair_bytes ms.
+Proof. exact conn_bytes_layout. Qed.
+Print Assumptions C10_conn_table_layout.
+
+(* the size pack computes before allocating is the number of bytes it writes (no byte of the buffer is left unwritten
+   or written twice) *)
+Theorem C10_pack_size_correct : forall m bytes, pack_ok m = true -> pack m = Ok bytes ->
+  pack_size m = Z.of_nat (length bytes).
+Proof. exact pack_size_correct. Qed.
+Print Assumptions C10_pack_size_correct.
+
+(* MoleculeContainer.pack_len reads the atom count back *)
+Theorem C10_pack_len_correct : forall m bytes suf, pack_ok m = true -> pack m = Ok bytes ->
+  mol_pack_len (bytes ++ suf) = Ok (Z.of_nat (length (pm_atoms m))).
+Proof. exact mol_pack_len_correct. Qed.
+Print Assumptions C10_pack_len_correct.
+
+(* reactions: the role split by counts restores reactants / reagents / products for ALL role sizes incl. empty sides *)
+Theorem C10_rxn_split_correct : forall (A : Type) (rs ags ps : list A),
+  rxn_split (rs ++ ags ++ ps) (Z.of_nat (length rs)) (Z.of_nat (length ags)) (Z.of_nat (length ps)) = (rs, ags, ps).
+Proof. exact @rxn_split_correct. Qed.
+Print Assumptions C10_rxn_split_correct.
